@@ -3,6 +3,7 @@ import Driver.OpsMachines
 import ChipFiring.Model.Machines
 import ChipFiring.Model.Txt
 import ChipFiring.Model.TxtFile
+import ChipFiring.Model.JsonText
 open Lean CF
 namespace Drv
 
@@ -110,5 +111,42 @@ def opTxtRead (j : Json) : M Json := do
         ("recs", Json.arr (rs.map fun r => Json.arr #[jStr r.1, jInt r.2]).toArray)])]
     | none => none'
   | _ => throw s!"txt_read kind {kind}"
+
+/-- the JSON text layer: the text the model writes for the object (dict orders of the live object
+    are passed in as `dorder`), and the verdict of the bracket/quote scanner on the given texts -/
+def opJsonText (j : Json) : M Json := do
+  let n ← getNat j "n"
+  let kind ← (← j.getObjVal? "kind").getStr?
+  let names ← (← getArr j "names").toList.mapM fun e => e.getStr?
+  let nm (v : Fin n) : List Char := ((names[v.1]?).getD "?").toList
+  let order : List (Fin n) := ((← asNats (getArrD j "dorder")).filterMap (ref? n))
+  let texts ← (getArrD j "texts").toList.mapM fun e => e.getStr?
+  let opens := Json.arr (texts.map fun t => Json.bool (JsonText.openAtEnd t.toList)).toArray
+  match ← graphOf j n with
+  | .error _ => pure err
+  | .ok G =>
+    let nameL := (List.finRange n).map nm
+    let edges : List Txt.Edge := G.edgeList.map fun (a, b, k) => (nm a, nm b, (k : Int))
+    let v ← (match kind with
+      | "graph" => pure (some (JsonText.graphJV nameL edges))
+      | "divisor" => do
+        let D ← vecOf n (← getInts j "deg")
+        pure (some (JsonText.divisorJV nameL edges (order.map fun v => (nm v, D v))))
+      | "orientation" => do
+        match Orient.new G (← pairsOf (getArrD j "orient")) with
+        | .ok o =>
+          -- pairs in the order of the unordered edge list, each in its stored direction
+          let ps := G.edgeList.filterMap fun (a, b, _) =>
+            if o.st a b = 1 then some (nm a, nm b) else if o.st b a = 1 then some (nm b, nm a) else none
+          pure (some (JsonText.orientationJV nameL edges ps))
+        | .error _ => pure none
+      | "script" => do
+        match (scriptNew (← entriesOf (getArrD j "script")) : Except Unit (Vec Int n)) with
+        | .ok s => pure (some (JsonText.scriptJV nameL edges (order.map fun v => (nm v, s.get v))))
+        | .error _ => pure none
+      | _ => throw s!"json_text kind {kind}")
+    match v with
+    | none => pure err
+    | some v => pure <| Json.mkObj [("text", jStr (JsonText.dumps v)), ("open", opens), ("prefix_not_none", jNat 0)]
 
 end Drv
